@@ -8,6 +8,19 @@
 //! every ordering of those segments, then all threads are joined and the "later API calls" are
 //! made from the controller thread. The same scenarios also run free (no parking).
 //!
+//! Two families of handle calls: errors h3 detects ITSELF on the stream (malformed input, its own
+//! state; `CloseStream::handle_connection_error_on_stream`) and connection errors the TRANSPORT
+//! reports on an operation of that one stream (`StreamErrorIncoming::ConnectionErrorIncoming` from
+//! `poll_data` / `send_data`; `CloseStream::handle_quic_stream_error`). For the second family the
+//! simulated transport stages the error on one stream half only: the connection stays open and no
+//! other pending transport operation is woken (an adapter fault, or a connection loss one stream
+//! sees first), so the ONLY thing that can reach a parked driver is h3's own wake. Such a call is cut
+//! at a scheduling point of the harness inside the transport (`sim:inject`, right before the error
+//! is returned to h3) and at `stream:scw:1`: segment one = (transport error | store), segment
+//! two = wake. It does not stop at `stream:scw:0`, so the segment count is the same as for the
+//! first family, and its first segment starts under the harness's control whichever function of
+//! h3 the error then takes.
+//!
 //! A full driver poll (`server::Connection::accept()`, `client::Connection::poll_close()`) passes
 //! through `poll_connection_error` 3..5 times; `ConnectionInner::poll_accept_bi` and
 //! `poll_accept_recv` (public through the `inner` field; the latter is what h3-webtransport's
@@ -21,8 +34,10 @@
 //!  1. the winner is the first error stored: the cell holds the own error of the call whose
 //!     segment performed the first store, and never anything else afterwards;
 //!  2. the first `close` h3 issues carries the winner's code when h3 detected the winner itself,
-//!     there is none when the winner came from the peer; `Drop`'s later `close(H3_NO_ERROR)` is
-//!     ignored exactly as QUIC ignores a second close;
+//!     H3_INTERNAL_ERROR when the winner is a transport `InternalError` (h3 has to tell the peer),
+//!     there is none when the winner came from the peer or is a transport timeout (the connection
+//!     is gone already); `Drop`'s later `close(H3_NO_ERROR)` is ignored exactly as QUIC ignores a
+//!     second close;
 //!  3. every later driver call returns the winner; every handle that reports a connection error
 //!     reports the winner (variant, code, reason);
 //!  4. no lost wake-up: driver's poll returned Pending + an error is stored => the driver's waker
@@ -34,11 +49,11 @@ use crate::refimpl::frames as rf;
 use crate::report::Report;
 use crate::sim::apps::{CliConn, CliSend, CliStream, ConnErr, Err as AErr, SrvConn, SrvStream};
 use crate::sim::rawpeer as raw;
-use crate::sim::{self, lock, Net, NetAction, NetCfg, SimConn, CLIENT, SERVER};
+use crate::sim::{self, lock, InjectHook, InjectOn, Net, NetAction, NetCfg, SimConn, CLIENT, SERVER};
 use crate::util::{hash64, Rng};
 use crate::{Gen, PropDef, Tier};
 use bytes::{Buf, Bytes};
-use h3::quic::Connection as _;
+use h3::quic::{Connection as _, ConnectionErrorIncoming};
 use h3::{ConnectionState as _, SharedState};
 use serde_json::{json, Value};
 use std::cell::RefCell;
@@ -62,26 +77,32 @@ pub fn def() -> PropDef {
                calls each raising a connection error in one poll: first frame not HEADERS 0x105, CANCEL_PUSH \
                on a request stream 0x105, HTTP/2 frame type 0x105, frame cut by FIN 0x106, undecodable QPACK \
                trailers 0x200, GOAWAY already buffered in h3 0x105 (raised without a transport call), drop of \
-               the last SendRequest 0x100). Real OS threads: one makes ONE driver poll, the others one handle \
+               the last SendRequest 0x100; and connection errors the transport reports on an operation of that \
+               ONE stream, the simulated connection staying open and no other pending transport operation \
+               being woken: InternalError / Timeout / ApplicationClose(0x107) from recv_data's poll_data, \
+               InternalError from send_data). Real OS threads: one makes ONE driver poll, the others one handle \
                call each; h3's hooks cut the driver poll into check|register|rest per pass and a handle call \
-               into store|wake; between two decisions of the controller exactly one actor runs one segment. \
+               into store|wake (a transport-reported error: from the harness's own point inside the transport \
+               to the wake hook | wake); between two decisions of the controller exactly one actor runs one segment. \
                Forced: for 1-pass driver calls ALL (3+2k)!/(3!*2^k) = 10/210/7560 priority orders over the \
                live actors (k=1,2 quick; k=3 thorough) x all error multisets x 20 scenario shapes; for full \
                driver polls a depth-first enumeration of every maximal schedule (k=1,2 quick, 12 shapes x all \
-               multisets; k=3 thorough: the 12 shapes x 1-2 error combinations = 20 scenarios). Free-running: the same \
+               multisets; k=3 thorough: the 12 shapes x 1-3 error combinations = 28 scenarios). Free-running: the same \
                scenarios without parking, seed-derived spin delays at the hooks and the start line (2*10^4 \
                quick / 10^6 thorough / 2000 lite). After the join: calls on every handle, 3 more driver \
                polls, calls on every handle again, then handles, connection and SendRequest are dropped. \
                Oracles: (1) the error cell (read at every decision point) first holds the own error of the \
                call whose segment stored first and never changes; (2) the first close issued by h3 carries \
-               the winner's code iff h3 detected the winner (none when it came from the peer; Drop's \
-               close(H3_NO_ERROR) ignored); (3) every later driver call returns the winner and every handle \
+               the winner's code iff h3 detected the winner, 0x102 iff the winner is a transport InternalError \
+               (none when it came from the peer or is a transport Timeout; Drop's close(H3_NO_ERROR) ignored); \
+               (3) every later driver call returns the winner and every handle \
                reporting a connection error reports the winner (variant, code, reason); (4) driver Pending + \
                error stored => its waker was woken at or after the storing segment (free runs: at all). \
                Non-trivial distinct = distinct (scenario, executed segment order) resp. (scenario, hook stamp order).",
         assumptions: || {
             vec![
                 "a call's own error (what it raises when it is alone) is measured by a solo run of the same staged stream and cross-checked against the code the scenario table expects".into(),
+                "transport-reported errors: h3::quic allows a stream operation to return ConnectionErrorIncoming while other operations of the connection are still pending (h3-quinn's send_data does: InternalError on a second write before poll_ready); simquic reports the staged error on that stream half only, every time it is used, keeps the connection open and wakes nobody, so the driver learns of it through h3 alone. Expected: cell and every report Remote(InternalError(reason)) + close(0x102) by h3 | Timeout, no close | Remote(ApplicationClose(0x107)), no close".into(),
                 "all driver calls of one scenario are made with one task's waker (one driver task); a scenario in which two tasks poll driver functions of one connection is out of scope".into(),
                 "simquic: first close wins, every close call is logged; after its own close the closing side's transport calls fail with a local-close error, which h3 must map to the stored winner".into(),
                 "free-running verdicts do not depend on timing: agreement of all reports with the stored error, its membership in the set of raised errors, 'not certainly stored after another' by relaxed stamps, the close code and the wake rule".into(),
@@ -114,7 +135,26 @@ pub enum Kind {
     Buffered,
     /// drop of the last SendRequest (client) => H3_NO_ERROR
     DropLast,
+    /// the transport reports `InternalError(reason)` on this stream's `poll_data`: recv_data() =>
+    /// Remote(InternalError(reason)), h3 closes with H3_INTERNAL_ERROR
+    TransportInternal,
+    /// the transport reports `Timeout` on this stream's `poll_data`: recv_data() => Timeout, no close
+    TransportTimeout,
+    /// the transport reports `ApplicationClose { 0x107 }` on this stream's `poll_data`: recv_data() =>
+    /// Remote(ApplicationClose(0x107)), no close
+    TransportAppClose,
+    /// the transport reports `InternalError(reason)` on this stream's `send_data`: send_data() =>
+    /// Remote(InternalError(reason)), h3 closes with H3_INTERNAL_ERROR
+    TransportSendInternal,
 }
+
+/// error code of the CONNECTION_CLOSE a `TransportAppClose` stream reports (not the code of `Extra::PeerClose`)
+pub const TRANSPORT_APP_CLOSE_CODE: u64 = rf::H3_EXCESSIVE_LOAD;
+const TRANSPORT_INTERNAL_REASON_RECV: &str = "simquic: internal error reported on one receive stream";
+const TRANSPORT_INTERNAL_REASON_SEND: &str = "simquic: internal error reported on one send stream";
+const TRANSPORT_KINDS: [Kind; 4] = [Kind::TransportInternal, Kind::TransportTimeout, Kind::TransportAppClose, Kind::TransportSendInternal];
+/// an actor whose call is cut at `sim:inject` does not stop again before the store
+const PASS_SCW0: &[&str] = &["stream:scw:0"];
 
 impl Kind {
     fn name(self) -> &'static str {
@@ -126,19 +166,51 @@ impl Kind {
             Kind::Qpack => "bad-qpack",
             Kind::Buffered => "buffered-goaway",
             Kind::DropLast => "drop-last-sendrequest",
+            Kind::TransportInternal => "transport-internal-error",
+            Kind::TransportTimeout => "transport-timeout",
+            Kind::TransportAppClose => "transport-application-close",
+            Kind::TransportSendInternal => "transport-internal-error-on-send",
         }
     }
-    fn expected_code(self) -> u64 {
+    /// the code of the error h3 detects itself (None: the error is reported by the transport)
+    fn expected_code(self) -> Option<u64> {
         match self {
-            Kind::First | Kind::Unexpected | Kind::Forbidden | Kind::Buffered => rf::H3_FRAME_UNEXPECTED,
-            Kind::Cut => rf::H3_FRAME_ERROR,
-            Kind::Qpack => rf::QPACK_DECOMPRESSION_FAILED,
-            Kind::DropLast => rf::H3_NO_ERROR,
+            Kind::First | Kind::Unexpected | Kind::Forbidden | Kind::Buffered => Some(rf::H3_FRAME_UNEXPECTED),
+            Kind::Cut => Some(rf::H3_FRAME_ERROR),
+            Kind::Qpack => Some(rf::QPACK_DECOMPRESSION_FAILED),
+            Kind::DropLast => Some(rf::H3_NO_ERROR),
+            Kind::TransportInternal | Kind::TransportTimeout | Kind::TransportAppClose | Kind::TransportSendInternal => None,
         }
     }
     /// raised from h3's own buffers / state, whatever the transport says
     fn transport_independent(self) -> bool {
         matches!(self, Kind::Buffered | Kind::DropLast)
+    }
+    /// the connection error the transport reports on one half of this handle's stream, and nowhere else
+    fn transport_error(self) -> Option<(InjectOn, ConnectionErrorIncoming)> {
+        match self {
+            Kind::TransportInternal => Some((InjectOn::Recv, ConnectionErrorIncoming::InternalError(TRANSPORT_INTERNAL_REASON_RECV.into()))),
+            Kind::TransportTimeout => Some((InjectOn::Recv, ConnectionErrorIncoming::Timeout)),
+            Kind::TransportAppClose => Some((InjectOn::Recv, ConnectionErrorIncoming::ApplicationClose { error_code: TRANSPORT_APP_CLOSE_CODE })),
+            Kind::TransportSendInternal => Some((InjectOn::Send, ConnectionErrorIncoming::InternalError(TRANSPORT_INTERNAL_REASON_SEND.into()))),
+            _ => None,
+        }
+    }
+    fn is_transport(self) -> bool {
+        self.transport_error().is_some()
+    }
+    /// What the connection's outcome must be when this transport-reported error is the first one
+    /// (h3/src/error/connection_error_creators.rs: `convert_to_connection_error` maps Quic(Timeout) to
+    /// ConnectionError::Timeout and every other Quic(e) to ConnectionError::Remote(e)), written down
+    /// independently of h3's conversion.
+    fn expected_transport_outcome(self) -> Option<ConnErr> {
+        match self {
+            Kind::TransportInternal => Some(ConnErr::RemoteInternal(TRANSPORT_INTERNAL_REASON_RECV.into())),
+            Kind::TransportTimeout => Some(ConnErr::Timeout),
+            Kind::TransportAppClose => Some(ConnErr::RemoteApp { code: TRANSPORT_APP_CLOSE_CODE }),
+            Kind::TransportSendInternal => Some(ConnErr::RemoteInternal(TRANSPORT_INTERNAL_REASON_SEND.into())),
+            _ => None,
+        }
     }
 }
 
@@ -219,10 +291,13 @@ fn shapes(one_pass: bool) -> Vec<Shape> {
 
 fn alphabet(s: &Shape) -> Vec<Kind> {
     let mut v = if s.extra == Extra::PeerClose {
-        // every call that touches the transport raises the peer's close: one representative
+        // every call that touches the transport raises the peer's close (a dead connection reports that
+        // before anything staged on one stream): one representative
         vec![Kind::Unexpected, Kind::Buffered]
     } else {
-        vec![Kind::First, Kind::Unexpected, Kind::Forbidden, Kind::Cut, Kind::Qpack, Kind::Buffered]
+        let mut v = vec![Kind::First, Kind::Unexpected, Kind::Forbidden, Kind::Cut, Kind::Qpack, Kind::Buffered];
+        v.extend(TRANSPORT_KINDS);
+        v
     };
     if s.side == CLIENT {
         v.push(Kind::DropLast);
@@ -285,9 +360,9 @@ fn table_full_k3() -> &'static Vec<Entry> {
                 let cs: Vec<Vec<Kind>> = if extra == Extra::PeerClose {
                     vec![vec![Kind::Unexpected, Kind::Buffered, Kind::Buffered]]
                 } else if side == SERVER {
-                    vec![vec![Kind::First, Kind::Cut, Kind::Qpack], vec![Kind::Unexpected, Kind::Forbidden, Kind::Buffered]]
+                    vec![vec![Kind::First, Kind::Cut, Kind::Qpack], vec![Kind::Unexpected, Kind::Forbidden, Kind::Buffered], vec![Kind::Cut, Kind::TransportInternal, Kind::TransportTimeout]]
                 } else {
-                    vec![vec![Kind::Unexpected, Kind::Cut, Kind::DropLast], vec![Kind::First, Kind::Qpack, Kind::Buffered]]
+                    vec![vec![Kind::Unexpected, Kind::Cut, Kind::DropLast], vec![Kind::First, Kind::Qpack, Kind::Buffered], vec![Kind::TransportAppClose, Kind::TransportSendInternal, Kind::DropLast]]
                 };
                 for c in cs {
                     v.push((s, c));
@@ -305,12 +380,13 @@ fn seg_counts(k: usize) -> Vec<usize> {
 }
 
 fn miri_entries() -> Vec<Entry> {
-    vec![(Shape { side: SERVER, op: DriverOp::AcceptBi, warm: false, extra: Extra::None }, vec![Kind::Unexpected])]
+    let s = Shape { side: SERVER, op: DriverOp::AcceptBi, warm: false, extra: Extra::None };
+    vec![(s, vec![Kind::Unexpected]), (s, vec![Kind::TransportInternal])]
 }
 
 fn gens(tier: Tier) -> Vec<Gen> {
     if cfg!(miri) {
-        return vec![Gen::exhaustive("forced_1pass_k1", 10), Gen::new("free_running", 20)];
+        return vec![Gen::exhaustive("forced_1pass_k1", 10 * miri_entries().len() as u64), Gen::new("free_running", 20)];
     }
     let n1 = |k: usize| table(true, k).len() as u64 * rr::n_orderings(&seg_counts(k));
     let mut v = vec![Gen::exhaustive("solo", (shapes(true).len() + shapes(false).len()) as u64), Gen::exhaustive("forced_1pass_k1", n1(1))];
@@ -371,6 +447,32 @@ fn finish(tier: Tier, rep: &mut Report) {
         ],
     };
     for (k, floor) in floors {
+        if rep.get(k) < *floor {
+            rep.inconclusive(format!("{} = {} below floor {}", k, rep.get(k), floor));
+        }
+    }
+    // connection errors the transport reports on one handle's stream: every variant in every mode, as
+    // the winner, and with a driver that had returned Pending before the error was stored (the only
+    // runs in which h3's wake is what brings the error to the driver)
+    // (runs per variant: forced 1-pass, forced full, free; as winner; then: winner with a Pending
+    // driver forced, free; closes with H3_INTERNAL_ERROR; calls cut at sim:inject)
+    let (per_variant, totals): ([u64; 4], [u64; 4]) = match tier {
+        Tier::Lite => ([1, 0, 1, 1], [1, 0, 1, 4]),
+        Tier::Quick => ([5_000, 5_000, 1_000, 5_000], [1_000, 200, 5_000, 10_000]),
+        Tier::Thorough => ([100_000, 10_000, 10_000, 50_000], [10_000, 1_000, 10_000, 100_000]),
+    };
+    let mut tfloors: Vec<(String, u64)> = Vec::new();
+    for k in TRANSPORT_KINDS {
+        for (mode, floor) in [("forced-1pass", per_variant[0]), ("forced-full", per_variant[1]), ("free", per_variant[2])] {
+            tfloors.push((format!("transport_error_runs[{},{}]", mode, k.name()), floor));
+        }
+        tfloors.push((format!("transport_error_winner[{}]", k.name()), per_variant[3]));
+    }
+    tfloors.push(("transport_error_winner_outcome[forced,pending-then-woken]".into(), totals[0]));
+    tfloors.push(("transport_error_winner_outcome[free,pending-then-woken]".into(), totals[1]));
+    tfloors.push((format!("h3_first_close[{:#x}]", rf::H3_INTERNAL_ERROR), totals[2]));
+    tfloors.push((format!("hook_hits[{}]", rr::INJECT), totals[3]));
+    for (k, floor) in &tfloors {
         if rep.get(k) < *floor {
             rep.inconclusive(format!("{} = {} below floor {}", k, rep.get(k), floor));
         }
@@ -474,6 +576,11 @@ fn staged_bytes(kind: Kind, h3_side: usize) -> (Vec<u8>, bool) {
             (v, true)
         }
         Kind::DropLast => (v, false),
+        // a well-formed message head and nothing more: what the call raises comes from the transport
+        Kind::TransportInternal | Kind::TransportTimeout | Kind::TransportAppClose | Kind::TransportSendInternal => {
+            v.extend(head);
+            (v, false)
+        }
     }
 }
 
@@ -558,6 +665,14 @@ fn recv_data_once(h: &mut Handle) -> OpOut {
     }
 }
 
+fn send_data_once(h: &mut Handle) -> OpOut {
+    match h {
+        Handle::Srv(s) => unit_out(once(s.send_data(Bytes::from_static(b"body")))),
+        Handle::Cli(s) => unit_out(once(s.send_data(Bytes::from_static(b"body")))),
+        _ => OpOut::Ok("n/a"),
+    }
+}
+
 fn recv_trailers_once(h: &mut Handle) -> OpOut {
     let mut cx = Context::from_waker(Waker::noop());
     let r = match h {
@@ -603,6 +718,8 @@ fn first_op(h: &mut Handle, kind: Kind) -> (&'static str, OpOut) {
             }
         },
         Kind::Unexpected | Kind::Forbidden | Kind::Cut | Kind::Buffered => ("recv_data", recv_data_once(h)),
+        Kind::TransportInternal | Kind::TransportTimeout | Kind::TransportAppClose => ("recv_data", recv_data_once(h)),
+        Kind::TransportSendInternal => ("send_data", send_data_once(h)),
         Kind::Qpack => ("recv_trailers", recv_trailers_once(h)),
         Kind::DropLast => {
             let old = std::mem::replace(h, Handle::Gone);
@@ -664,6 +781,8 @@ fn build(shape: &Shape, kinds: &[Kind], w: &Waker) -> Result<Scenario, String> {
         ctrl
     };
     let mut handles: Vec<Handle> = Vec::new();
+    // the request stream of each handle, in the order of `kinds` (None: the SendRequest)
+    let mut stream_ids: Vec<Option<u64>> = Vec::new();
     let mut keep = None;
     let mut conn;
     if h3_side == SERVER {
@@ -675,6 +794,7 @@ fn build(shape: &Shape, kinds: &[Kind], w: &Waker) -> Result<Scenario, String> {
                 let (bytes, fin) = staged_bytes(*k, SERVER);
                 n.raw_write(CLIENT, id, &bytes);
                 deliver_all(&mut n, id, CLIENT, fin);
+                stream_ids.push(Some(id));
             }
         }
         let mut resolvers: Vec<Resolver> = Vec::new();
@@ -718,10 +838,12 @@ fn build(shape: &Shape, kinds: &[Kind], w: &Waker) -> Result<Scenario, String> {
         let (c, mut send): (CliConn<B>, CliSend<B>) = ready(h3::client::builder().send_grease(false).build::<_, _, B>(SimConn::<B>::new(&net, CLIENT)), "client build")?.map_err(|e| format!("set-up: client build failed: {}", e))?;
         for k in kinds {
             if *k == Kind::DropLast {
+                stream_ids.push(None);
                 continue;
             }
             let mut s: CliStream<B> = ready(send.send_request(get_request()), "send_request")?.map_err(|e| format!("set-up: send_request failed: {}", e))?;
             let id = s.id().into_inner();
+            stream_ids.push(Some(id));
             {
                 let mut n = lock(&net);
                 let (bytes, fin) = staged_bytes(*k, CLIENT);
@@ -782,10 +904,27 @@ fn build(shape: &Shape, kinds: &[Kind], w: &Waker) -> Result<Scenario, String> {
             },
         }
     }
+    // last of all: the connection errors the transport will report on ONE stream. Nothing is closed
+    // and nobody is woken; the set-up above (and the driver's warm-up poll) saw a healthy transport.
+    {
+        let mut n = lock(&net);
+        for (k, id) in kinds.iter().zip(&stream_ids) {
+            if let (Some((on, error)), Some(id)) = (k.transport_error(), id) {
+                // the call that meets the error becomes schedulable right before the error enters h3
+                let hook = InjectHook(Arc::new(|| rr::harness_point(rr::INJECT)));
+                n.stage_conn_error(h3_side, *id, on, error, Some(hook));
+            }
+        }
+    }
     Ok(Scenario { net, h3_side, conn, handles, keep })
 }
 
 fn prepare_stream_srv(s: &mut SrvStream<B>, k: Kind) -> Result<(), String> {
+    if k == Kind::TransportSendInternal {
+        // the body the call will send follows a response head
+        let resp = http::Response::builder().status(200).body(()).expect("valid response");
+        return ready(s.send_response(resp), "send_response")?.map_err(|e| format!("set-up: send_response failed: {}", e));
+    }
     let mut cx = Context::from_waker(Waker::noop());
     prepared(k, data_out(match k {
         Kind::Qpack | Kind::Buffered => s.poll_recv_data(&mut cx),
@@ -892,8 +1031,10 @@ pub fn run_scenario(shape: &Shape, kinds: &[Kind], sched: Sched) -> Result<RunRe
             let rig = rig.clone();
             let (spin, skew) = plans[i + 1];
             let mut h = h;
+            // a transport-reported error: cut at sim:inject (before the error enters h3) and at scw:1
+            let pass: &'static [&'static str] = if kind.is_transport() { PASS_SCW0 } else { &[] };
             stream_tickets.push(pool.submit(i + 1, move || {
-                let (r, log) = rig.enter(i + 1, spin, skew, || panics::catch(|| first_op(&mut h, kind)));
+                let (r, log) = rig.enter_passing(i + 1, spin, skew, pass, || panics::catch(|| first_op(&mut h, kind)));
                 (h, r, log)
             })?);
         }
@@ -1049,10 +1190,20 @@ fn own_error(side: usize, kind: Kind, peer_close: bool) -> Result<ConnErr, Strin
                 return Err(format!("solo {}: the call reported {:?} but the driver {:?}", kind.name(), r, stored));
             }
         }
-        let want = if peer_close && !kind.transport_independent() { ConnErr::RemoteApp { code: PEER_CLOSE_CODE } } else { ConnErr::Local { code: kind.expected_code(), reason: String::new() } };
+        let want = if peer_close && !kind.transport_independent() {
+            ConnErr::RemoteApp { code: PEER_CLOSE_CODE }
+        } else if let Some(code) = kind.expected_code() {
+            ConnErr::Local { code, reason: String::new() }
+        } else {
+            kind.expected_transport_outcome().ok_or_else(|| format!("solo {}: no expectation in the scenario table", kind.name()))?
+        };
         let ok = match (&want, &stored) {
             (ConnErr::RemoteApp { code: a }, ConnErr::RemoteApp { code: b }) => a == b,
+            // an error h3 detects: the code is fixed, the reason text is h3's
             (ConnErr::Local { code: a, .. }, ConnErr::Local { code: b, .. }) => a == b,
+            // an error the transport reports: variant and reason pass through unchanged
+            (ConnErr::RemoteInternal(a), ConnErr::RemoteInternal(b)) => a == b,
+            (ConnErr::Timeout, ConnErr::Timeout) => true,
             _ => false,
         };
         if !ok {
@@ -1115,6 +1266,7 @@ fn show(e: &ConnErr) -> String {
     match e {
         ConnErr::Local { code, reason } => format!("Local({:#x}, {:?})", code, reason),
         ConnErr::RemoteApp { code } => format!("Remote(ApplicationClose {:#x})", code),
+        ConnErr::RemoteInternal(r) => format!("Remote(InternalError {:?})", r),
         other => format!("{:?}", other),
     }
 }
@@ -1125,6 +1277,8 @@ fn seg_name(point: &str) -> &'static str {
         "driver:pce:1" => "register",
         "driver:pce:2" => "rest",
         "stream:scw:0" => "store",
+        // from the transport's report of the error to the wake hook (stream:scw:0 is passed)
+        rr::INJECT => "transport error + store",
         "stream:scw:1" => "wake",
         _ => "?",
     }
@@ -1218,6 +1372,8 @@ fn judge(shape: &Shape, kinds: &[Kind], run: &RunResult, forced: bool, rep: &mut
     let mut winner_who = "handle";
     // step at which the segment that performed the first store was released
     let mut store_seg_start: Option<u64> = None;
+    // forced: the handle call whose segment performed the first store
+    let mut storing_kind: Option<Kind> = None;
     if forced {
         let Some(pos) = run.log.iter().position(|e| matches!(&e.kind, EvKind::Obs(o) if o.starts_with(CELL_OBS))) else {
             rep.inconclusive(format!("scenario {}: no store was observed although every call returned", shape.name()));
@@ -1247,6 +1403,8 @@ fn judge(shape: &Shape, kinds: &[Kind], run: &RunResult, forced: bool, rep: &mut
         }
         if storer == 0 {
             winner_who = "driver";
+        } else {
+            storing_kind = Some(kinds[storer - 1]);
         }
         winner = Some(stored);
     } else {
@@ -1345,10 +1503,10 @@ fn judge(shape: &Shape, kinds: &[Kind], run: &RunResult, forced: bool, rep: &mut
         }
         (Some((code, _)), None) => {
             debug_assert!(h3_detected(&win));
-            issues.push(Issue { prio: 5, sig: "C05/close-missing".into(), detail: format!("winner {:?} was detected by h3 and the driver has been polled 3 more times, but h3 never closed the transport (expected close {:#x})", win, code) });
+            issues.push(Issue { prio: 5, sig: "C05/close-missing".into(), detail: format!("winner {:?} {} and the driver has been polled 3 more times, but h3 never closed the transport (expected close {:#x})", win, if matches!(win, ConnErr::RemoteInternal(_)) { "is an internal error of the transport, which h3 has to close for with H3_INTERNAL_ERROR," } else { "was detected by h3" }, code) });
         }
         (None, Some(c)) => {
-            issues.push(Issue { prio: 5, sig: "C05/close-although-winner-came-from-peer".into(), detail: format!("winner {:?} came from the peer but h3 closed with {:#x}", win, c.code) });
+            issues.push(Issue { prio: 5, sig: "C05/close-although-winner-came-from-peer".into(), detail: format!("winner {:?} came from the peer / the transport (the connection is gone already) but h3 closed with {:#x}", win, c.code) });
         }
         (None, None) => {}
     }
@@ -1364,9 +1522,27 @@ fn judge(shape: &Shape, kinds: &[Kind], run: &RunResult, forced: bool, rep: &mut
         DriverOut::Pending if wakes_that_count > 0 => "pending-then-woken",
         _ => "lost-wakeup",
     };
+    // Was the winner a connection error the transport reported on one handle's stream? Forced: the kind
+    // of the call whose segment stored first; free: every call that can have raised the stored error.
+    let transport_winner: Option<Kind> = match (forced, storing_kind) {
+        (true, k) => k.filter(|k| k.is_transport()),
+        (false, _) => {
+            let raisers: Vec<Kind> = kinds.iter().zip(&own).filter(|(_, e)| **e == win).map(|(k, _)| *k).collect();
+            if !raisers.is_empty() && raisers.iter().all(|k| k.is_transport()) && d_own.as_ref() != Some(&win) {
+                Some(raisers[0])
+            } else {
+                None
+            }
+        }
+    };
+    if let Some(k) = transport_winner {
+        let mode = if forced { "forced" } else { "free" };
+        rep.count(&format!("transport_error_winner[{}]", k.name()));
+        rep.count(&format!("transport_error_winner_outcome[{},{}]", mode, outcome));
+    }
     if outcome == "lost-wakeup" {
         rep.count(&format!("lost_wakeup_in[{}]", shape.name()));
-        let (pat, mini) = lost_wakeup_pattern(run, kinds, store_seg_start);
+        let (pat, mini) = lost_wakeup_pattern(run, kinds, store_seg_start, transport_winner.is_some());
         issues.push(Issue {
             prio: 0,
             sig: format!("C05/lost-wakeup[{}]", pat),
@@ -1387,6 +1563,8 @@ fn judge(shape: &Shape, kinds: &[Kind], run: &RunResult, forced: bool, rep: &mut
         match &win {
             ConnErr::Local { code, .. } => format!("local {:#x}", code),
             ConnErr::RemoteApp { code } => format!("peer close {:#x}", code),
+            ConnErr::RemoteInternal(r) => format!("transport internal error on {}", if r == TRANSPORT_INTERNAL_REASON_SEND { "send" } else { "recv" }),
+            ConnErr::Timeout => "transport timeout".to_string(),
             other => format!("{:?}", other),
         }
     ));
@@ -1429,9 +1607,16 @@ fn free_possible_winners(run: &RunResult, own: &[ConnErr], d_own: &Option<ConnEr
 
 /// Where did the first store and the wake calls fall relative to the driver's last pass through
 /// `poll_connection_error`? (positional hook names; today pce:0.. is the check, pce:1.. the register)
-fn lost_wakeup_pattern(run: &RunResult, kinds: &[Kind], store_seg_start: Option<u64>) -> (String, String) {
+fn lost_wakeup_pattern(run: &RunResult, kinds: &[Kind], store_seg_start: Option<u64>, transport_winner: bool) -> (String, String) {
     let canonical = "pce:1<store<wake<register".to_string();
+    // the storing call returned without ever reaching the wake hook, and the error it stored is one the
+    // transport reported on its stream: another defect than a wake that came too early
+    let no_wake_transport = "no-wake-call-after-the-store-of-a-transport-reported-error".to_string();
     let Some(s0) = store_seg_start else {
+        if transport_winner && !run.free_logs.iter().skip(1).flatten().any(|(_, p)| *p == "stream:scw:1") {
+            // no handle call of this run passed the hook in front of the wake: nothing was ever announced
+            return (no_wake_transport, "free-running: no handle call reached stream:scw:1 (the wake); hook stamps in the case".into());
+        }
         // Pending + error stored + no wake at all has a single explanation at hook granularity (the wake
         // found no registered waker and the cell was not looked at again): same root cause, same
         // signature as in the forced runs. The hook stamps go into the case as evidence.
@@ -1451,6 +1636,12 @@ fn lost_wakeup_pattern(run: &RunResult, kinds: &[Kind], store_seg_start: Option<
             w = actor_name(storer, kinds)
         );
         (canonical, mini)
+    } else if wake_segs.is_empty() && transport_winner {
+        let mini = format!(
+            "driver: poll => Pending (waker registered, cell empty) | {w}: the transport reports a connection error on its stream, h3 stores it, {w} returns it - and no handle call passes stream:scw:1 (the wake) afterwards: nothing ever wakes the driver",
+            w = actor_name(storer, kinds)
+        );
+        (no_wake_transport, mini)
     } else if wake_segs.is_empty() {
         ("no-wake-call-after-the-store".into(), "see the executed schedule in the case".into())
     } else {
@@ -1485,8 +1676,23 @@ fn report_root(mut issues: Vec<Issue>, shape: &Shape, kinds: &[Kind], run: &RunR
 // ---------------------------------------------------------------------------------------------
 // cases
 
+/// coverage of the transport-reported errors: runs of each mode in which at least one handle call met one
+fn account_transport(kinds: &[Kind], mode: &str, rep: &mut Report) {
+    let mut any = false;
+    for k in TRANSPORT_KINDS {
+        if kinds.contains(&k) {
+            any = true;
+            rep.count(&format!("transport_error_runs[{},{}]", mode, k.name()));
+        }
+    }
+    if any {
+        rep.count(&format!("transport_error_runs[{},any]", mode));
+    }
+}
+
 fn account_forced(shape: &Shape, kinds: &[Kind], run: &RunResult, set: &str, rep: &mut Report) {
     rep.count("forced_schedules");
+    account_transport(kinds, if set.contains("[full") { "forced-full" } else { "forced-1pass" }, rep);
     for (p, n) in rr::hook_hits(&run.log) {
         rep.add(&format!("hook_hits[{}]", p), n);
     }
@@ -1618,6 +1824,7 @@ fn free_case(seed: u64, rep: &mut Report) {
     };
     rep.count("free_iterations");
     rep.count(&format!("free_iterations[k={}]", k));
+    account_transport(&kinds, "free", rep);
     for l in &run.free_logs {
         for (_, p) in l {
             if *p != rr::END && *p != rr::START {
@@ -1673,8 +1880,11 @@ fn run_case(gen: &str, index: u64, seed: u64, _tier: Tier, rep: &mut Report) {
     let one_pass_k = |k: usize, rep: &mut Report| {
         let n_ord = rr::n_orderings(&seg_counts(k));
         if cfg!(miri) {
-            let (s, c) = miri_entries().remove(0);
-            forced_seq_case(&s, &c, index % n_ord, rep);
+            // the lite tier runs the first few indices only: the entries take turns
+            let mut e = miri_entries();
+            let n = e.len() as u64;
+            let (s, c) = e.remove((index % n) as usize);
+            forced_seq_case(&s, &c, (index / n) % n_ord, rep);
             return;
         }
         let t = table(true, k);
